@@ -884,9 +884,6 @@ fn loom_scenarios(tier: &str) -> Vec<vkit::loomrun::LoomScenario> {
     for before in 0..=maxb {
         for during in 1..=maxd {
             for ann in ["announce", "none"] {
-                if ann == "none" && before == 0 {
-                    continue; // nothing would have queued the connection
-                }
                 v.push(format!("accept:{before}:{during}:{ann}"));
             }
         }
